@@ -31,9 +31,9 @@ type term struct {
 const zeroSym = "0"
 
 type boundsCtx struct {
-	p        *Prog
-	fn       *ssa.Function
-	keys     map[ssa.Value]string
+	p            *Prog
+	fn           *ssa.Function
+	keys         map[ssa.Value]string
 	indexResults []indexRes
 	regexResults []regexRes
 	symVal       map[string]ssa.Value
